@@ -41,50 +41,11 @@ impl FixtureDatabase {
     }
 
     /// Check if a function body contains yield statements.
-    #[allow(clippy::only_used_in_recursion)]
+    ///
+    /// Delegates to the traversal that locates the yield line (`find_yield_line`), so
+    /// "is a generator" (return-type unwrapping) and "has a yield line" can never disagree.
     pub(crate) fn contains_yield(&self, body: &[Stmt]) -> bool {
-        for stmt in body {
-            match stmt {
-                Stmt::Expr(expr_stmt) => {
-                    if let Expr::Yield(_) | Expr::YieldFrom(_) = &*expr_stmt.value {
-                        return true;
-                    }
-                }
-                Stmt::If(if_stmt) => {
-                    if self.contains_yield(&if_stmt.body) || self.contains_yield(&if_stmt.orelse) {
-                        return true;
-                    }
-                }
-                Stmt::For(for_stmt) => {
-                    if self.contains_yield(&for_stmt.body) || self.contains_yield(&for_stmt.orelse)
-                    {
-                        return true;
-                    }
-                }
-                Stmt::While(while_stmt) => {
-                    if self.contains_yield(&while_stmt.body)
-                        || self.contains_yield(&while_stmt.orelse)
-                    {
-                        return true;
-                    }
-                }
-                Stmt::With(with_stmt) => {
-                    if self.contains_yield(&with_stmt.body) {
-                        return true;
-                    }
-                }
-                Stmt::Try(try_stmt) => {
-                    if self.contains_yield(&try_stmt.body)
-                        || self.contains_yield(&try_stmt.orelse)
-                        || self.contains_yield(&try_stmt.finalbody)
-                    {
-                        return true;
-                    }
-                }
-                _ => {}
-            }
-        }
-        false
+        self.find_yield_line(body, &[0]).is_some()
     }
 
     /// Extract the yielded type from a Generator/Iterator type annotation.
